@@ -153,6 +153,14 @@ class Models:
             return [(st, "val", IterV(("items", tuple(v.items))))]
         if isinstance(v, CollV):
             return [(st, "val", IterV(("coll", v)))]
+        if isinstance(v, StructV) and v.adt in ("std::ops::Range", "std::ops::RangeInclusive") and \
+                isinstance(v.fields.get("start"), IntV) and isinstance(v.fields.get("end"), IntV):
+            lo, hi, ty = v.fields["start"].l, v.fields["end"].l, v.fields["start"].ty
+            if v.adt.endswith("RangeInclusive"):
+                hi = hi + 1
+            out = [(s, "val", IterV(("range", lo, hi, ty))) for s in self.I.assume(st, flit(le(lo, hi)))]
+            out += [(s, "val", IterV(("range", lo, lo, ty))) for s in self.I.assume(st, flit(gt(lo, hi)))]
+            return out
         if isinstance(v, StructV):
             return [(st, "val", IterV(("custom", v)))]
         return None
@@ -577,6 +585,9 @@ class Models:
 
     def _try_from(self, e, st, a, src, dst):
         F = self.I.F
+        dt = F.types[F.strip_ref(dst)]
+        if dt["k"] == "array":
+            return self.ext.arr_try_from(e, st, a)
         dt = F.types[dst]
         if dt["k"] == "int" and isinstance(a[0], IntV):
             ty = dt["s"]
@@ -719,7 +730,18 @@ class Models:
         return self.I.loops.iter_next(e, st, a[0])
 
     def m_fold(self, e, st, a):
-        return self.I.loops.fold(e, st, a[0], a[1], a[2])
+        def step(s, acc, x):
+            return self.I.apply_fn(s, a[2], [acc, x], e)
+
+        ety = None
+        if isinstance(a[2], FnV) and a[2].fn in self.I.F.bodies:
+            ps = self.I.F.bodies[a[2].fn]["params"]
+            if len(ps) >= 3 and ps[2].get("pat"):
+                ety = ps[2]["pat"].get("t")
+        r = self.I.loops.py_for(e, st, a[0], a[1], step, elem_ty=ety)
+        if r is None:
+            return self.I.loops.fold(e, st, a[0], a[1], a[2])
+        return [(s, k, v) for s, k, v, _ in r]
 
     def m_from_iter(self, e, st, a):
         it = a[0]
